@@ -78,6 +78,10 @@ func Bubble(t *testing.T, f func()) (res RunResult) {
 			res.Panic = r
 			buf := make([]byte, 64<<10)
 			res.Stack = string(buf[:runtime.Stack(buf, false)])
+			if strings.Contains(fmt.Sprint(r), "all goroutines in bubble are blocked") {
+				// a durable deadlock of the case: say who waits where
+				res.Stack = strings.Join(StackSites(allBubbleStacks()), "\n")
+			}
 		}
 	}()
 	synctest.Test(t, func(*testing.T) {
@@ -178,4 +182,18 @@ func bubbleSignature(dump string) (string, bool) {
 		sb.WriteString(h[1] + "|" + strings.SplitN(st, ",", 2)[0] + "|" + strings.Join(lines[1:], "|") + "\n")
 	}
 	return sb.String(), idle
+}
+
+// allBubbleStacks returns the stacks of every goroutine that belongs to any synctest bubble.
+func allBubbleStacks() []string {
+	buf := make([]byte, 8<<20)
+	n := runtime.Stack(buf, true)
+	var out []string
+	for _, b := range strings.Split(string(buf[:n]), "\n\n") {
+		h := hdrRe.FindStringSubmatch(b)
+		if h != nil && strings.Contains(h[2], "synctest bubble") {
+			out = append(out, b)
+		}
+	}
+	return out
 }
